@@ -156,7 +156,13 @@ func (a *AnalyzedSchema) inferKnownType() {
 		tpe.Contains("number") ||
 		tpe.Contains("string") ||
 		(format != "" && strfmt.Default.ContainsName(format)) ||
-		(a.isObjectType() && !a.hasProps && !a.hasAllOf && !a.hasAdditionalProps && !a.hasAdditionalItems)
+		(a.isObjectType() && !a.hasProps && !a.hasAllOf && !a.hasAdditionalProps && !a.hasAdditionalItems && !a.hasTupleItems())
+}
+
+// hasTupleItems tells whether items are specified as positional schemas: this makes the schema a tuple,
+// not an empty object, even when "type: array" is omitted
+func (a *AnalyzedSchema) hasTupleItems() bool {
+	return a.hasItems && a.schema.Items.Schemas != nil
 }
 
 func (a *AnalyzedSchema) inferMap() error {
